@@ -266,6 +266,38 @@ func checkProperty(p *Program, prop, tier string, timeoutS, workers int, start t
 			results = append(results, p.verifyLemma(l))
 		}
 	}
+	// cone: every callee contract used by a proof is itself verified as part of this property
+	done := map[string]bool{}
+	for _, r := range results {
+		if r.Contract.Kind == "func" {
+			done[r.Contract.Func] = true
+		}
+	}
+	for changed := true; changed; {
+		changed = false
+		for _, r := range results {
+			for callee := range r.Exec.usedContracts {
+				if done[callee] {
+					continue
+				}
+				done[callee] = true
+				changed = true
+				c := p.contracts[callee]
+				cr := p.verifyFunc(c)
+				for _, o := range cr.Obls {
+					if !hasProp(o.Props, prop) {
+						o.Props = append(append([]string{}, o.Props...), prop)
+					}
+				}
+				results = append(results, cr)
+				tag := " (callee in the cone)"
+				if c.Trusted {
+					tag = " (trusted: contract assumed)"
+				}
+				funcsUnder = append(funcsUnder, cr.Name+tag)
+			}
+		}
+	}
 	runDir := filepath.Join(p.verif, ".cache", "run-"+prop)
 	os.RemoveAll(runDir)
 	sv := newSolver(runDir, timeoutS, tier == "thorough")
